@@ -5,6 +5,7 @@ these obligations only (the theorems about the translated methods are in C17Recv
 -/
 import PrimaiteModel.Props.C17Run
 import PrimaiteModel.Gen.Database
+import PrimaiteModel.Gen.DatabaseConnWriters
 namespace Primaite.Database
 
 /-- The model's ladder uses the status codes, the health set, the password operator and the capacity operator the
@@ -67,5 +68,22 @@ theorem C17_gen_fresh_instance_defaults :
   intro s cfg h
   unfold Server.reinstall at h ⊢
   (repeat' split) <;> simp_all <;> decide
+
+/-- **Who can write the connection table** (round 7; the frame behind `C17_table_grows_only_by_authorised_connect`,
+`C17_closed_stays_closed_run`, `C17_sessions_bounded_run`): in the source as it is now, the only methods of the database service's
+class chain that mutate `self._connections` are `add_connection`, `terminate_connection` and `clear_connections`; inside the chain
+the first is called from `_process_connect` only, the second from `receive` only (both translated: `C17_tr_process_connect`,
+`C17_tr_receive`), the third not at all; in the whole tree `clear_connections` is called by the DoS bot on ITSELF only, and the
+only write to another object's `_connections` is the user-session manager's on the terminal service. -/
+theorem C17_gen_table_writers :
+    Gen.DatabaseConnWriters.writersInChain =
+      ["IOSoftware.add_connection", "IOSoftware.clear_connections", "IOSoftware.terminate_connection"] ∧
+    Gen.DatabaseConnWriters.callsInChain =
+      ["DatabaseService._process_connect:self.add_connection", "DatabaseService.receive:self.terminate_connection"] ∧
+    Gen.DatabaseConnWriters.clearCallers =
+      ["simulator/system/applications/red_applications/dos_bot.py:DoSBot._application_loop:self"] ∧
+    Gen.DatabaseConnWriters.foreignWrites =
+      ["simulator/network/hardware/base.py:UserSessionManager._timeout_session:self.parent.terminal"] := by
+  decide
 
 end Primaite.Database
